@@ -403,6 +403,76 @@ def local_defs(func, name):
     return out
 
 
+def path_values(g, func, target_nodes, exprs, labels=None):
+    """For every acyclic path from the entry to one of target_nodes: (conditions, [value of
+    each expr at the end of the path]).  A Name is replaced by the value last assigned to it
+    on the path (recursively for plain copies); 'param' stands for an unassigned parameter.
+    None when the paths cannot be enumerated."""
+    res = g.path_conditions([g.entry], target_nodes, labels=labels or g.NORMAL, with_nodes=True)
+    if res is None:
+        return None
+    out = []
+    for conds, nodes in res:
+        last = {}
+        for n in nodes[:-1]:
+            st = n.ast if n.kind == 'stmt' else None
+            if isinstance(st, ast.Assign):
+                for t in st.targets:
+                    if isinstance(t, ast.Name):
+                        last[t.id] = st.value
+                    elif isinstance(t, (ast.Tuple, ast.List)):
+                        for e in t.elts:
+                            if isinstance(e, ast.Name):
+                                last[e.id] = st
+            elif isinstance(st, ast.AugAssign) and isinstance(st.target, ast.Name):
+                last[st.target.id] = st
+        vals = []
+        for e in exprs:
+            depth = 0
+            while isinstance(e, ast.Name) and e.id in last and depth < 6:
+                e = last[e.id]
+                depth += 1
+            vals.append(e)
+        out.append((conds, vals, nodes[-1]))
+    return out
+
+
+def built_list(func, name):
+    """The canonical loop form of a list comprehension: `name = []` (only definition), exactly
+    one `name.append(e)` inside a for loop, no other mutation of name.
+    -> (loop, element expr, [(cond, polarity)] inside the loop) or None."""
+    d = single_def(func, name)
+    if not (isinstance(d, ast.List) and not d.elts) or len(local_defs(func, name)) != 1:
+        return None
+    uses = [c for c in own_calls(func.node) if isinstance(c.func, ast.Attribute) and isinstance(c.func.value, ast.Name) and c.func.value.id == name]
+    if len(uses) != 1 or uses[0].func.attr != 'append' or len(uses[0].args) != 1:
+        return None
+    loop = in_loop(uses[0])
+    if not isinstance(loop, ast.For):
+        return None
+    conds = [(t, pol) for t, pol in guards(uses[0]) if any(a is loop for a in ancestors(t))]
+    return loop, uses[0].args[0], conds
+
+
+def built_dict(func, name):
+    """`name = {}` + exactly one `name[k] = v` inside a for loop (canonical form of a dict
+    comprehension) -> (loop, key expr, value expr, conds) or None."""
+    d = single_def(func, name)
+    if not (isinstance(d, ast.Dict) and not d.keys) or len(local_defs(func, name)) != 1:
+        return None
+    stores = [n for n in own_nodes(func.node) if isinstance(n, ast.Assign) and len(n.targets) == 1 and isinstance(n.targets[0], ast.Subscript)
+              and isinstance(n.targets[0].value, ast.Name) and n.targets[0].value.id == name]
+    muts = [c for c in own_calls(func.node) if isinstance(c.func, ast.Attribute) and isinstance(c.func.value, ast.Name) and c.func.value.id == name
+            and c.func.attr in ('update', 'pop', 'clear', 'setdefault', 'popitem')]
+    if len(stores) != 1 or muts:
+        return None
+    loop = in_loop(stores[0])
+    if not isinstance(loop, ast.For):
+        return None
+    conds = [(t, pol) for t, pol in guards(stores[0]) if any(a is loop for a in ancestors(t))]
+    return loop, stores[0].targets[0].slice, stores[0].value, conds
+
+
 def else_branch(if_node):
     """The statements executed when the test of ``if_node`` is false: its orelse, or - in the
     canonical guard-clause form (body always leaves the block) - the rest of the enclosing
